@@ -74,6 +74,7 @@ struct DecodeInfo {
     int32_t need_expansion;
     uint16_t mask, expected; // of the matching row
     uint16_t unused;         // Unused<> bits of the row (from the table text)
+    uint16_t unused2;        // unused bits of the second word (from the row's trailing comment "unusedN@P")
     int32_t nargs;
     int32_t args[VERIF_MAX_ARGS];      // operand storage / constant value
     char arg_types[VERIF_MAX_ARGS][24]; // operand type names (Ax, MemImm8, bool, SumBase ...), truncated
